@@ -294,14 +294,20 @@ def outcome_of(res, nunits):
 def c18_recursive_hash(case, params):
     """Hashing (impl Hash for SteelVal) recurses natively through every container kind: using a value nested deeper
     than `min_depth` as a hash-map key overflows the native stack."""
-    return (case.get("search") == "deep" and case.get("op") == "hash" and case.get("outcome") == "crash"
-            and case.get("depth", 0) >= params.get("min_depth", 10000) and case.get("shape") in params.get("shapes", []))
+    if not (case.get("search") == "deep" and case.get("depth", 0) >= params.get("min_depth", 10000)):
+        return False
+    if case.get("shape") in params.get("hash_built_shapes", []):
+        # building the value already hashes the nested value at every level (quadratic time, linear native stack)
+        return case.get("outcome") in ("crash", "hang")
+    if case.get("outcome") != "crash":
+        return False
+    return case.get("op") == "hash" and case.get("shape") in params.get("shapes", [])
 
 
 def c18_recursive_print(case, params):
     """format_with_cycles prints hash maps / hash sets / boxes through Display/Debug of the nested value (a fresh
     detector with depth 0 per level): printing such a value nested deeper than `min_depth` overflows the native stack."""
-    return (case.get("search") == "deep" and case.get("op") == "print" and case.get("outcome") == "crash"
+    return (case.get("search") == "deep" and case.get("op") == "print" and case.get("outcome") in ("crash", "hang")
             and case.get("depth", 0) >= params.get("min_depth", 10000) and case.get("shape") in params.get("shapes", []))
 
 
@@ -309,7 +315,7 @@ def c18_cyclic_print_through_box(case, params):
     """Printing a cycle that passes through a box (HeapAllocated): CycleDetector::start_format looks the box up by the
     address of its content (unwrap on None, cycles.rs) or the box arm recurses through Display without the detector
     (native stack overflow)."""
-    return (case.get("search") == "cycle" and case.get("op") == "print" and case.get("outcome") in ("panic", "crash")
+    return (case.get("search") == "cycle" and case.get("op") == "print" and case.get("outcome") in ("panic", "crash", "hang")
             and case.get("cycle") in params.get("cycles", []))
 
 
@@ -352,6 +358,8 @@ def run(ck):
             ops = list(OPS)
             if quick and n >= 100000:
                 ops = rng.sample(ops, 4) if shape not in ("closure", "list", "hash") else ops
+                if shape == "hashset":
+                    ops = ops[:2]
             for op in ops:
                 if shape == "stream" and op in ("print",) and False:
                     continue
@@ -368,12 +376,17 @@ def run(ck):
             for n in (100000, 1000000):
                 cases.append(deep_case(KIND_SHAPE[k], OP_OF_TABLE[op], n))
                 meta.append({"search": "deep", "shape": KIND_SHAPE[k], "op": OP_OF_TABLE[op], "depth": n, "because": "%s/%s became recursive" % (op, k)})
+    import glob
+    for pth in sorted(glob.glob(os.path.join(common.ROOT, "corpus", "c18", "*.json"))):
+        for item in json.load(open(pth)):
+            cases.append(item["units"])
+            meta.append({"search": "corpus", "shape": item["name"], "op": "corpus"})
     for (name, _) in CYCLES:
         for op in CYCLE_OPS:
             cases.append(cycle_case(name, op))
             meta.append({"search": "cycle", "cycle": name, "op": op})
     t0 = time.time()
-    res = run_cases(ck, cases, prelude="", env=None, fresh=True, batch=1, stall=60 if quick else 240, mem_gb=4, stack_kb=8192,
+    res = run_cases(ck, cases, prelude="", env=None, fresh=True, batch=1, stall=45 if quick else 240, mem_gb=4, stack_kb=8192,
                     nproc=8, max_bad_per_case=1)
     ck.log("%d cases in %.0fs" % (len(cases), time.time() - t0))
     hist = {}
@@ -399,6 +412,8 @@ def run(ck):
         fails.append(d)
         if m.get("because"):
             found_new_rec_failure = True
+    if os.environ.get("C18_DUMP"):
+        json.dump(fails, open(os.environ["C18_DUMP"], "w"), indent=1, default=str)
     for d in fails:
         what = "%s %s %s%s: %s %s" % (d["search"], d.get("shape") or d.get("cycle"), d["op"],
                                       (" depth %d" % d["depth"]) if "depth" in d else "", d["outcome"],
